@@ -38,6 +38,7 @@ type RunCfg struct {
 	Cut        *CutCfg            `json:"cut"`
 	Concretize map[string][]int64 `json:"concretize"`
 	HashMode   string             `json:"hashmode"` // stub (default) | registry
+	Flags      map[string]bool    `json:"flags"`    // read by the harness through vFlag
 	MaxPaths   int                `json:"maxpaths"`
 	MaxSteps   int                `json:"maxsteps"`
 	MaxLoop    int                `json:"maxloop"`
@@ -370,6 +371,46 @@ func (x *Exec) applySummary(st *State, f *Frame, in *ssa.Call, fn *ssa.Function,
 				x.pathPanic(st, "nil pointer dereference")
 			}
 			et := fn.Params[i].Type().Underlying().(*types.Pointer).Elem()
+			if k == "out" && p.obj != 0 {
+				// how the caller uses the receiver: the contract of the summarised function needs to hold for these patterns only
+				nsl := slotsOf(et)
+				o := x.obj(st, p.obj)
+				pat := "dirty"
+				for j, kj := range sm.Params {
+					if j == i {
+						continue
+					}
+					if pj, ok := args[j].(P); ok && (kj == "in" || kj == "inout") && pj.obj == p.obj && pj.off == p.off {
+						pat = "alias"
+					}
+					if aj, ok := args[j].(A); ok && kj == "val" && len(aj.f) == nsl && p.off+nsl <= len(o.slots) {
+						same := true
+						for t := 0; t < nsl; t++ {
+							wa, oka := aj.f[t].(W)
+							wb, okb := o.slots[p.off+t].(W)
+							if !oka || !okb || wa.n != wb.n {
+								same = false
+							}
+						}
+						if same {
+							pat = "alias"
+						}
+					}
+				}
+				if pat == "dirty" && p.off+nsl <= len(o.slots) {
+					zero := true
+					for t := 0; t < nsl; t++ {
+						w, ok := o.slots[p.off+t].(W)
+						if !ok || !w.n.IsConst() || w.n.Val.Sign() != 0 {
+							zero = false
+						}
+					}
+					if zero {
+						pat = "zero"
+					}
+				}
+				x.usage[shortFn(sm.Fn)+"|"+pat] = true
+			}
 			writes = append(writes, wr{p, x.slotWidths(et, nil), x.d.App(opName(), -1, ins)})
 		}
 	}
@@ -968,6 +1009,9 @@ func (x *Exec) stub(st *State, f *Frame, in *ssa.Call, fn *ssa.Function, name st
 	case "vObserve":
 		x.observe(st, x.goString(st, args[0]), args[1])
 		x.ret(f, in, nil)
+		return true
+	case "vFlag":
+		x.ret(f, in, W{d.Bool(x.cfg.Flags[x.goString(st, args[0])])})
 		return true
 	case "vHavoc":
 		// every word-sized slot of the object becomes an unconstrained symbol: hidden per-object state (caches, flags) is arbitrary
